@@ -1,13 +1,17 @@
 //! plonksim — deterministic simulation with fault injection for dusk-plonk.
 //! See /verif/DESIGN.md.
 
+mod allocseam;
 mod c01;
 mod c03;
 mod c04;
 mod c16;
+mod c17;
 mod c18;
 mod channel;
+mod compressed;
 mod deploy;
+mod disk;
 mod framework;
 mod json;
 mod mirror;
@@ -16,6 +20,7 @@ mod program;
 mod rm_verify;
 mod scenario;
 mod seams;
+mod strict;
 
 use std::collections::BTreeMap;
 use std::io::Write;
@@ -24,12 +29,16 @@ use std::time::Instant;
 use framework::{execute, minimise, stats_json, PropFn, Spec, Stats};
 use json::J;
 
+#[global_allocator]
+static GLOBAL: allocseam::Counting = allocseam::Counting;
+
 fn prop_fn(id: &str) -> Option<(&'static str, PropFn)> {
     Some(match id {
         "C01" => ("C01", c01::run as PropFn),
         "C03" => ("C03", c03::run as PropFn),
         "C04" => ("C04", c04::run as PropFn),
         "C16" => ("C16", c16::run as PropFn),
+        "C17" => ("C17", c17::run as PropFn),
         "C18" => ("C18", c18::run as PropFn),
         _ => return None,
     })
@@ -97,6 +106,9 @@ fn cmd_run(a: &Args) {
     let out = a.kv.get("out").cloned().unwrap_or_else(|| "/dev/stdout".into());
     let replay_dir = a.kv.get("replay-dir").cloned().unwrap_or_else(|| ".".into());
     let progress = a.kv.get("progress").cloned();
+    if let Some(p) = &progress {
+        framework::set_progress_file(p.clone());
+    }
     let spec0 = Spec::parse(a.kv.get("spec").map(|s| s.as_str()).unwrap_or(""));
 
     let t0 = Instant::now();
